@@ -54,6 +54,9 @@ def run(tier, seed):
     nmod = int(os.environ.get("VERIF_NMOD", 3 if quick else 20))
     prof = gen.profile(max_len=10)
     builds = harness.make_many(tc, [seed * 1000 + 700 + i for i in range(nmod)], prof, atoms=10, composites=9)
+    from ..asn import shapes
+    builds.append(harness.make(tc, seed * 1000 + 797, prof, module_fn=lambda g: shapes.build3("SZ")))
+    builds.append(harness.make(tc, seed * 1000 + 798, prof, module_fn=lambda g: shapes.build2("SH2")))
     for b in builds:
         if b.exe is None:
             chk.inconcl("module not built (%s)" % b.error[0])
@@ -61,7 +64,20 @@ def run(tier, seed):
         enc = der.Encoder(b.mod)
         # ---- stage 1: clean runs to learn n and callback counts
         structs = []     # (tname, desc, setup ops, valid, value)
-        for tname, t in b.mod.types.items():
+        if b.mod.name in ("SZ", "SH2"):
+            for tname, t in b.mod.types.items():
+                vv = shapes.values3(b.mod, tname, quick) if b.mod.name == "SZ" else [(v, True) for v in shapes.values2(b.mod, tname, rng, quick)]
+                for v, ok in vv:
+                    try:
+                        ref = enc.encode(t, v)
+                    except Exception:
+                        continue
+                    dec = "dec s=0 t=%s syn=BER in=%s" % (tname, drv.hx(ref))
+                    structs.append((tname, "valid" if ok else "constraint-violating", [dec], ok, v if ok else None))
+                    if ok and b.mod.name == "SH2":
+                        # the same value with its DEFAULT components stored explicitly
+                        structs.append((tname, "valid:defaults-stored", [dec, "xf s=0 kind=default limit=8 seed=1"], True, v))
+        for tname, t in ([] if b.mod.name in ("SZ", "SH2") else b.mod.types.items()):
             for v in b.gen.values(t, 2 if quick else 4):
                 ref = harness.ref_der(b, t, v)
                 if ref is not None:
@@ -116,7 +132,7 @@ def run(tier, seed):
                 fids = tb.hit(taboo.ids(b.mod, t, v, s)) if v is not None else []
                 if fids and valid:
                     continue
-                key = {"syntax": s, "structure": desc.split(":")[0], "xf": desc.split(":")[-1], "has_set": flags["has_set"]}
+                key = {"syntax": s, "structure": desc.split(":")[0], "xf": desc.split(":")[-1], "has_set": flags["has_set"], "kind": b.mod.resolve(t).kind}
                 if rc >= 0:
                     if int(e["bytes"]) != rc:
                         chk.violation(dict(key, symptom="encoded-ne-bytes-delivered"),
@@ -167,7 +183,7 @@ def run(tier, seed):
             if r is None or r.status == "notrun":
                 chk.inconcl("case not run")
                 continue
-            key = {"syntax": s, "structure": desc.split(":")[0], "xf": desc.split(":")[-1], "has_set": flags["has_set"]}
+            key = {"syntax": s, "structure": desc.split(":")[0], "xf": desc.split(":")[-1], "has_set": flags["has_set"], "kind": b.mod.resolve(t).kind}
             replay = {"module": b.text, "pdu": tname, "structure": desc, "syntax": s}
             ev = r.events[len(setup):]
             if r.status in ("crash", "hang"):
